@@ -84,6 +84,7 @@ let gen_history (seed : int) (nops : int) (ndocs : int) (profile : int) : string
     let x = rand_scalar () in
     let nhd = new_handle () in
     let custom : (world -> world * result) option ref = ref None in
+    let pending_passign : (int * n * pel * pel) option ref = ref None in
     let rand_path () = List.init (2 + rand 2) (fun _ -> if rand 3 = 0 then PIdx (nat_of_int (pick [0; 1; 2])) else PKey (pick keys)) in
     let (text, o, bind) : string * op * int option =
       if profile <> 1 && rand 9 = 0 then begin
@@ -96,6 +97,28 @@ let gen_history (seed : int) (nops : int) (ndocs : int) (profile : int) : string
           custom := Some (fun w -> chain_set w r path x);
           (Printf.sprintf "chainset %d %s %s" h (path_string path) (dump_scalar x), OSet (r, x), None)
         end
+      end else
+      if profile <> 1 && rand 16 = 0 && (
+           (* dst[p1] = src[p2]: only when the destination resolves and the source is neither inside nor around it *)
+           let pe () = if rand 3 = 0 then PIdx (nat_of_int (pick [0; 1; 2])) else PKey (pick keys) in
+           let p1 = pe () and p2 = pe () in
+           let lhs = live_handles () in
+           let h2 = pick lhs in
+           (match handles.(h2) with
+            | Some r2 ->
+                let (w1, dst) = get_or_add_level !w r p1 in
+                (match dst with
+                 | Some d ->
+                     let okk = (match get_level w1 r2 p2 with Some s_ -> not (related w1 d s_) | None -> true) in
+                     if okk then begin pending_passign := Some (h2, r2, p1, p2); true end else false
+                 | None -> false)
+            | None -> false)) then begin
+        match !pending_passign with
+        | Some (h2, r2, p1, p2) ->
+            pending_passign := None;
+            custom := Some (fun w -> proxy_assign w r p1 r2 p2);
+            (Printf.sprintf "passign %d %s %d %s" h (path_string [p1]) h2 (path_string [p2]), OSet (r, SNull), None)
+        | None -> failwith "passign"
       end else
       if rand 14 = 0 then begin
         (* add<JsonArray>() / add<JsonObject>() / r[k].to<JsonArray>() / createNested...: two model steps in one call (Model/Chain.v) *)
@@ -241,12 +264,14 @@ let run_script (ndocs : int) (script : string) : string =
       | ["dcopyctor"; _; s2] -> (OGetElem (n_of_int (int_of_string s2), O), None)
       | ["addarr"; h; nh] | ["addobj"; h; nh] -> (OAddNew (hid h), Some (int_of_string nh))
       | ["nestarr"; h; k; nh] | ["nestobj"; h; k; nh] -> (OMakeMember (hid h, bytes_of_hex k), Some (int_of_string nh))
+      | ["passign"; h; _; _; _] -> (OSet (hid h, SNull), None)
       | ["chainget"; h; _; nh] -> (OGetElem (hid h, O), Some (int_of_string nh))
       | ["chainset"; h; _; x] -> (OSet (hid h, scalar_of_dump x), None)
       | _ -> failwith ("bad step: " ^ st) in
     let (w', res) = (match toks with
       | ["dmove"; d; s2] -> doc_move !w (nat d) (nat s2)
       | ["dcopyctor"; _; _] -> (!w, RUnit)
+      | ["passign"; h; p1; h2; p2] -> proxy_assign !w (hid h) (List.hd (path_of_string p1)) (hid h2) (List.hd (path_of_string p2))
       | [("addarr" | "addobj") as t; h; _] -> add_typed !w (hid h) (t = "addarr")
       | [("nestarr" | "nestobj") as t; h; k; _] -> nest_typed !w (hid h) (bytes_of_hex k) (t = "nestarr")
       | ["chainget"; h; p; _] -> chain_get !w (hid h) (path_of_string p)
